@@ -25,7 +25,7 @@ func init() {
 		MinEvals:    floor(3900, 110000),
 		MinDistinct: floor(2500, 60000),
 		RequiredCells: func(string) []string {
-			cells := []string{"vacuous", "vacuous/no-arguments", "vacuous/unrelated-argument", "far-bounds/inv-exp", "far-bounds/exp>292y", "scale", "scale/long-chain", "scale/deep-command", "scale/many-statements", "scale/principal-thrice", "hook", "meta-plain", "meta-enc", "nonce-long", "cause", "iat=1", "iat=2", "iat=3", "inv-exp", "self-delegation", "subject=invoker", "equal-commands", "top-root", "policy/ipld", "policy/constructors", "no-policy"}
+			cells := []string{"deep-nesting", "vacuous", "vacuous/no-arguments", "vacuous/unrelated-argument", "far-bounds/inv-exp", "far-bounds/exp>292y", "scale", "scale/long-chain", "scale/deep-command", "scale/many-statements", "scale/principal-thrice", "hook", "meta-plain", "meta-enc", "nonce-long", "cause", "iat=1", "iat=2", "iat=3", "inv-exp", "self-delegation", "subject=invoker", "equal-commands", "top-root", "policy/ipld", "policy/constructors", "no-policy"}
 			for _, a := range []string{"unset", "subject", "invoker", "third", "chain"} {
 				cells = append(cells, "audience="+a)
 			}
@@ -49,6 +49,7 @@ func init() {
 func runC05(w *mon.W) {
 	c05Scale(w)
 	c05Vacuous(w)
+	c05Deep(w)
 	r := w.Rng
 	total := w.Share(w.Pick(6000, 120000))
 	for it := 0; it < total; it++ {
@@ -363,6 +364,65 @@ func c05Vacuous(w *mon.W) {
 			d["error"] = e.Error()
 			d["hook"] = hook
 			w.Violate("denied/vacuous/"+classifyErr(e), fmt.Sprintf("a rule-conforming chain whose policy statements are all over missing optional data (arguments %s) was denied: %s", s.Args, errStr(e)), d)
+		}
+	}
+}
+
+// c05Deep: a conforming chain one of whose policies holds a statement that is TRUE under
+// 17..300 enclosing not / and / or statements must be allowed.
+func c05Deep(w *mon.W) {
+	r := w.Rng
+	idx := 0
+	for _, d := range []int{17, 32, 33, 34, 64, 65, 128, 129, 130, 200, 300} {
+		for variant := 0; variant < 4; variant++ {
+			idx++
+			if !w.Mine(idx) {
+				continue
+			}
+			n := 1 + r.IntN(3)
+			s := chain.Conformant(r, n, 0)
+			// an even number of negations keeps a true leaf true, an odd one makes a false leaf true
+			nots := 0
+			st := ref.Stmt{Kind: "==", Sel: ref.Sel{{Kind: ref.SField, Name: "role"}}, Val: ref.Str("admin")}
+			for i := 0; i < d; i++ {
+				if variant < 2 || i%3 == 0 {
+					st = ref.Stmt{Kind: "not", Subs: []ref.Stmt{st}}
+					nots++
+				} else if i%3 == 1 {
+					st = ref.Stmt{Kind: "and", Subs: []ref.Stmt{st}}
+				} else {
+					st = ref.Stmt{Kind: "or", Subs: []ref.Stmt{st}}
+				}
+			}
+			role := "admin"
+			if nots%2 == 1 {
+				role = "user"
+			}
+			s.Args = ref.Map(ref.E("role", ref.Str(role)))
+			k := r.IntN(n)
+			s.Links[k].Pol = ref.Policy{st}
+			s.Links[k].PolIPLD = variant%2 == 1
+			if ok, why := s.Conforming(); !ok {
+				w.Inconclusive("C05 deep generator produced a non-conforming scenario: " + why)
+				continue
+			}
+			s.Wire = r.IntN(3)
+			b, err := s.Build(r)
+			if err != nil {
+				w.Count("deep/scenario-not-realisable", 1)
+				continue
+			}
+			e := allowed(b.Inv, b.Loader, variant == 3)
+			w.Eval(1)
+			w.Cover("deep-nesting")
+			w.Distinct("deep", d, variant, k, n)
+			if e != nil {
+				dd := s.Describe()
+				dd["depth"] = d
+				dd["error"] = e.Error()
+				delete(dd, "proofs_leaf_to_root")
+				w.Violate("denied/deep-nesting/"+classifyErr(e), fmt.Sprintf("a conforming chain whose link %d holds a statement that is true under %d enclosing not/and/or statements was denied: %s", k, d, errStr(e)), dd)
+			}
 		}
 	}
 }
